@@ -362,6 +362,14 @@ pub enum LFault {
     Rewind { nth: usize },
 }
 
+/// The kind of an injected error varies with the fault position: whatever the kind, the property
+/// (C17) wants it back from the build.  (`FaultyCursor` keeps `Other`: `BufRead::read_line` itself
+/// retries `Interrupted` forever on a source that keeps reporting it.)
+fn fault_kind(i: usize) -> io::ErrorKind {
+    use io::ErrorKind::*;
+    [Other, Interrupted, UnexpectedEof, InvalidData, WouldBlock, TimedOut, Interrupted, BrokenPipe][i % 8]
+}
+
 pub struct VecLender<K, T: ?Sized> {
     items: Arc<Vec<K>>,
     limit: usize,
@@ -393,7 +401,7 @@ impl<K: Borrow<T>, T: ?Sized + 'static> Lender for VecLender<K, T> {
         if let LFault::At { pass, idx } = self.fault {
             if pass == self.pass && idx == self.pos {
                 self.pos += 1;
-                return Some(Err(io::Error::new(io::ErrorKind::Other, "injected")));
+                return Some(Err(io::Error::new(fault_kind(pass + idx), "injected")));
             }
         }
         if self.pos >= self.limit {
@@ -410,7 +418,7 @@ impl<K: Borrow<T>, T: ?Sized + 'static> RewindableIoLender<T> for VecLender<K, T
     fn rewind(mut self) -> Result<Self, io::Error> {
         if let LFault::Rewind { nth } = self.fault {
             if nth == self.pass {
-                return Err(io::Error::new(io::ErrorKind::Other, "injected rewind"));
+                return Err(io::Error::new(fault_kind(nth + 3), "injected rewind"));
             }
         }
         self.pass += 1;
